@@ -17,8 +17,8 @@ HARNESSES = [
 ]
 JOBS = 4
 MANIFEST = {
-  'level_text': 'Bounded model checking of the attribute-name kernel of the Python generator as built by the real build (-std=c11): for every attribute name within the byte bound (with and without the SELF\\\\ prefix) generate_attribute_name performs no invalid memory access and returns the lower-cased, prefix-stripped, NUL-terminated name, with a trailing underscore when it would collide with a Python keyword. Only this kernel is claimed.',
+  'level_text': 'Bounded model checking of the attribute-name kernel of the Python generator as built by the real build (-std=c11): for every attribute name within the byte bound (with and without the SELF\\\\ prefix) generate_attribute_name performs no invalid memory access and returns the lower-cased, prefix-stripped, NUL-terminated name, with a trailing underscore when it would collide with a Python keyword; every reserved word (the 32 lower-case keywords and the builtin property, any letter case, with or without prefix) gets exactly one. Only this kernel is claimed.',
   'level_note': 'Trusted: CBMC, goto-cc front end (implicit declarations as gcc -std=c11). Outside: class/constructor emission order, type definitions, selects, importability of the generated module, the runtime package.',
   'technique': 'CBMC bounded model checking of goto-cc-compiled classes_python.c (real -std=c11 flags) with symbolic attribute names; ASan replay',
-  'design_ref': 'DESIGN.md section 3, C18',
+  'design_ref': 'DESIGN.md section 2, C18',
 }
